@@ -226,6 +226,9 @@ class Core:
             if v.sort.kind == "opt" and v.sort.args[0] == sort:
                 # caller is responsible for the not-None obligation
                 return self.U.z3sort(v.sort).val(v.t)
+            if v.sort.kind == "opt" and k in ("int", "real", "bool"):
+                inner = self.from_term(self.U.z3sort(v.sort).val(v.t), v.sort.args[0], st)
+                return self.to_term(inner, sort, st)
         raise Unsupported(f"cannot coerce {getattr(v, 'sort', type(v).__name__)} to {sort}")
 
     def from_term(self, t, sort: Sort, st: State):
